@@ -676,7 +676,7 @@ def check_C18(tier):
 def stages_C09(tier):
     out = stages_variants("C09", "ptr:opt,ptr:noopt,map:opt", tier)
     # option sets with several candidates per operator (OpTable.tla): recompiling never changes the program
-    out.append(Stage("tables-determinism", "OpTable", optable_cfg(3 if tier == "quick" else 4), "C09M", modes="struct:opt", timeout=2400))
+    out.append(Stage("tables-determinism", "OpTable", optable_cfg(3), "C09M", modes="struct:opt" if tier == "quick" else "struct:opt,ptr:noopt", timeout=2400))
     return out
 
 
@@ -749,8 +749,9 @@ def optable_cfg(n):
 def stages_C17(tier):
     modes = "struct:noopt,struct:opt,ptr:opt,altmap:opt,altmap:noopt"
     n = 5 if tier == "quick" else 6
-    return [Stage("tables-%d" % (3 if tier == "quick" else 4), "OpTable", optable_cfg(3 if tier == "quick" else 4), "C17M",
-                  modes="struct:opt,ptr:noopt", timeout=2400),
+    # (tables of 4 entries are 330,000: the thorough tier adds the third environment form to the tables of 3 instead)
+    return [Stage("tables-3", "OpTable", optable_cfg(3), "C17M",
+                  modes="struct:opt,ptr:noopt" if tier == "quick" else "struct:opt,struct:noopt,ptr:opt,ptr:noopt", timeout=3000),
             Stage("ovl-n%d" % n, "MC_Expr", gen_cfg("ovl", n, emit="ovl", invariants=("EmitOvl", "OvlTyped")), "C17",
                   modes=modes, timeout=2400),
             Stage("ovl-args-n%d" % n, "MC_Expr", gen_cfg("ovlarg", n, emit="ovl", invariants=("EmitOvl", "OvlTyped")), "C17",
